@@ -664,7 +664,7 @@ func main() {
 		vh.Emit(cfg, "corpus", header, footer, runAll(corpus), extra())
 	}
 	r := vh.NewRng(cfg.Seed)
-	nTB, nExact, nStarve, nMgr, nKern, maxPk := 120, 60, 4, 80, 40, 30
+	nTB, nExact, nStarve, nMgr, nKern, maxPk := 90, 40, 3, 60, 30, 30
 	starveN := uint64(3000)
 	if cfg.Thorough() {
 		nTB, nExact, nStarve, nMgr, nKern, maxPk = 800, 300, 12, 500, 250, 60
